@@ -1,126 +1,208 @@
 """C06 — appending is equivalent to having written the concatenation.
 Model: Model/Las.v appender (aopen/apoints/aclose/arun) vs file_of (Proofs/AppendProofs.v).
-Correspondence: bytes after 1..3 append sessions vs the extracted model. Search: appended file vs the file a LasWriter produces
-for original points + appended chunks (impl vs impl), VLR/EVLR preservation, caller's record untouched, foreign formats refused."""
+Correspondence: bytes after 1..3 append sessions vs the extracted model. Search (the property on the implementation): appended file vs the
+file a LasWriter produces for original points + appended chunks (impl vs impl, byte-identical), EXACT header statistics recomputed from the bytes
+(the one-shot writer shares the header code: equality with it is not enough), VLR area byte-identical to the original's, EVLRs preserved and
+relocated, caller's record untouched, foreign formats refused; every way of opening the appender (class, laspy.open on a stream / on a path,
+encoding_errors, laz_backend None / (), closefd) on originals whose header strings / VLR descriptions are not ASCII; several appenders alive at
+the same time on files built from one header; one-off torn writes followed by continued use."""
 import io
+import os
+import tempfile
 
 import numpy as np
 
-from harness import common, lasio, sessions
+from harness import common, lasio
 
-ASSUMPTIONS = ["uncompressed files (LAZ append is C14)", "rescaling of differently scaled scale-aware records is compared against the writer's rule on the implementation, not modelled in Coq"]
+ASSUMPTIONS = ["uncompressed files (LAZ append is C14)", "rescaling of differently scaled scale-aware records is compared against the writer's rule on the implementation, not modelled in Coq",
+               "I/O faults judged here: an append_points whose low-level write fails with OSError BEFORE storing any byte, followed by anything (with-block "
+               "exit, more chunks, the same chunk again, close): the refused chunk counts as not accepted and the file must be equivalent to original ++ "
+               "accepted chunks. Torn writes (bytes stored) are C19's (reading never yields other records); C06 does not range over them"]
 
 _SESS = None
+
+# how the appender is obtained: (label, needs a path, kwargs)
+APPEND_OPEN = [("class", False, {}), ("class", False, {}), ("open", False, {}), ("open", False, {"laz_backend": None}), ("open", False, {"laz_backend": ()}),
+               ("open", False, {"encoding_errors": "strict"}), ("open", True, {}), ("open", True, {"laz_backend": ()}), ("class", False, {"laz_backend": None}),
+               ("open", False, {"closefd": True}), ("class", False, {"closefd": True})]
+
+
+class PathStream:
+    """a real file on disk behaving like the BytesIO the other sessions use (getvalue), for laspy.open(path, mode='a')"""
+
+    def __init__(self, initial):
+        fd, self.path = tempfile.mkstemp(suffix=".las", dir="/var/tmp")
+        with os.fdopen(fd, "wb") as f:
+            f.write(initial)
+
+    def getvalue(self):
+        with open(self.path, "rb") as f:
+            return f.read()
+
+    def drop(self):
+        try:
+            os.unlink(self.path)
+        except OSError:
+            pass
+
+
+def open_appender(dest, via, kw):
+    import laspy
+    from laspy.lasappender import LasAppender
+    kw = dict(kw)
+    if isinstance(dest, PathStream):
+        kw.pop("closefd", None)
+        return laspy.open(dest.path, mode="a", **kw)
+    closefd = kw.pop("closefd", False)
+    if via == "open":
+        return laspy.open(dest, mode="a", closefd=closefd, **kw)
+    return LasAppender(dest, closefd=closefd, **kw)
+
+
+def write_ref(h, recs, evl, enc):
+    """the one-shot reference: one LasWriter session with the original header writing every record, then the EVLRs"""
+    bio = io.BytesIO()
+    with lasio.open_writer(bio, h, "class", enc) as w:
+        for rec in recs:
+            if len(rec):
+                w.write_points(rec)
+        if evl:
+            w.write_evlrs(evl)
+    return bio.getvalue()
 
 
 def gen(ctx):
     import laspy
-    from laspy.lasappender import LasAppender
     rng = ctx.rng
     h = lasio.rand_header(rng)
     if rng.random() < 0.3:
         lasio.add_extra_dims(rng, h)
+    enc = {}
+    nonascii = []
+    if rng.random() < 0.3:
+        # an original written by other software: Latin-1 text in the header strings / VLR descriptions (read back as bytes)
+        nonascii = lasio.make_nonascii(rng, h)
+        enc = {"encoding_errors": rng.choice(["ignore", "replace"])}
+    sweep = rng.random() < 0.5
+    mk = (lambda n, **k: lasio.sweep_points(rng, h, n, start=rng.randrange(16))) if sweep else (lambda n, **k: lasio.rand_points(rng, h, n, **k))
     n0 = rng.choice([0, 0, 1, 3, 12])
-    A = lasio.rand_points(rng, h, n0)
+    A = mk(n0)
     evl = None
     if h.version.minor >= 4 and rng.random() < 0.55:
         evl = laspy.vlrs.vlrlist.VLRList([lasio.rand_vlr(rng) for _ in range(rng.choice([1, 2]))])
-    raw0 = lasio.write_las(h, A, evl)
+    raw0 = write_ref(h, [A], evl, enc)
     gap = 0
     if evl and rng.random() < 0.35:
         # unused bytes between the last point and the first EVLR of the original (legal; the appended points overwrite them)
         gap = rng.choice([1, h.point_format.size - 1, h.point_format.size, 3 * h.point_format.size + 1, 500])
         raw0 = lasio.with_gap(raw0, gap) or raw0
-    desc = {"version": str(h.version), "format": h.point_format.id, "orig_points": n0, "evlrs": len(evl or []), "vlrs": len(h.vlrs), "gap": gap, "sessions": []}
+    via, need_path, kw = rng.choice(APPEND_OPEN)
+    kw = dict(kw)
+    if enc:
+        kw["encoding_errors"] = enc["encoding_errors"] if rng.random() < 0.8 else rng.choice(["ignore", "replace"])
+    desc = dict(lasio.describe_header(h), orig_points=n0, evlrs=len(evl or []), gap=gap, non_ascii=nonascii, open=[via + ("(path)" if need_path else ""), {k: repr(v) for k, v in kw.items()}], sessions=[])
     cur = raw0
     chunks_all, model_ok = [], True
     outs_all = []
     model_cmds = []
     use_with = rng.random() < 0.3     # the session runs inside a with-block; a refused chunk then propagates out of it
     for si in range(rng.choice([1, 1, 2, 3])):
-        bio = io.BytesIO(cur)
+        bio = PathStream(cur) if need_path else lasio.KeepStream(cur)
         try:
-            ap = LasAppender(bio, closefd=False)
-        except Exception as ex:
-            return {"desc": desc, "final": None, "error": "open: " + repr(ex)}
-        toks, sdesc = [], []
-        closed_by_with = False
-        for _ in range(rng.randrange(0, 5)):
-            r = rng.random()
-            if r < 0.62:
-                rec = lasio.rand_points(rng, h, rng.choice([0, 0, 1, 2, 7]))
-                if len(rec) == 1 and rng.random() < 0.4:
-                    rec = rec[0]   # 0-d one-point record (las.points[i])
-                kind = "same"
-            elif r < 0.8:
-                # scale-aware record, same or different scaling (contents small enough to be representable)
-                k = rng.choice([1, 2, 5])
-                rec0 = lasio.rand_points(rng, h, k, pattern="small")
-                sc = np.array(h.scales) * rng.choice([1.0, 1.0, 10.0, 0.5])
-                of = np.array(h.offsets) + rng.choice([0.0, 0.0, 1.0, -2.5])
-                rec = laspy.ScaleAwarePointRecord(rec0.array, rec0.point_format, sc, of)
-                kind = "scaled" if (np.any(sc != h.scales) or np.any(of != h.offsets)) else "same"
-            else:
-                rec = sessions.wrong_format_points(rng, h, rng.choice([0, 1, 2]))
-                kind = "foreign"
-            before_rec = (lasio.rec_bytes(rec), tuple(map(float, getattr(rec, "scales", []))), tuple(map(float, getattr(rec, "offsets", []))))
-            before_file = bio.getvalue()
             try:
-                if use_with and kind == "foreign" and len(rec):
-                    # the exception leaves a with-block: the appender must still finalise the file with what was accepted
-                    try:
-                        with ap:
-                            ap.append_points(rec)
-                        o = "ok"
-                    except Exception as ex:
-                        o = "err:" + common.exc_kind(ex)
-                    after_rec = (lasio.rec_bytes(rec), tuple(map(float, getattr(rec, "scales", []))), tuple(map(float, getattr(rec, "offsets", []))))
-                    outs_all.append((kind, len(rec), o, before_rec == after_rec, True))
-                    sdesc.append(f"{kind}{len(rec)}!with-exit")
-                    toks.append("F" + common.hexb(bytes(len(rec) * h.point_format.size)))
-                    closed_by_with = True
-                    break
-                ap.append_points(rec)
-                o = "ok"
+                ap = open_appender(bio, via, kw)
             except Exception as ex:
-                o = "err:" + common.exc_kind(ex)
-            after_rec = (lasio.rec_bytes(rec), tuple(map(float, getattr(rec, "scales", []))), tuple(map(float, getattr(rec, "offsets", []))))
-            outs_all.append((kind, len(rec), o, before_rec == after_rec, before_file == bio.getvalue()))
-            sdesc.append(f"{kind}{len(rec)}")
-            if kind == "foreign":
-                toks.append("F" + common.hexb(bytes(len(rec) * h.point_format.size)))
-            elif kind == "scaled":
-                model_ok = False
-                if o == "ok":
-                    chunks_all.append(rec)
-            else:
-                toks.append("T" + common.hexb(lasio.rec_bytes(rec)))
-                if o == "ok":
-                    chunks_all.append(rec)
-        try:
-            if not closed_by_with:
-                ap.close()
-        except Exception as ex:
-            return {"desc": desc, "final": None, "error": "close: " + repr(ex)}
-        desc["sessions"].append(sdesc)
-        model_cmds.append((cur, toks))
-        cur = bio.getvalue()
-    return {"desc": desc, "orig": raw0, "header": h, "A": A, "evl": evl, "chunks": chunks_all, "final": cur, "outs": outs_all,
+                return {"desc": desc, "final": None, "error": "open: " + repr(ex)}
+            toks, sdesc = [], []
+            closed_by_with = False
+            for _ in range(rng.randrange(0, 5)):
+                r = rng.random()
+                if r < 0.62:
+                    rec = mk(rng.choice([0, 0, 1, 2, 7]))
+                    if len(rec) == 1 and rng.random() < 0.4:
+                        rec = rec[0]   # 0-d one-point record (las.points[i])
+                    kind = "same"
+                elif r < 0.8:
+                    # scale-aware record, same or different scaling (contents small enough to be representable)
+                    k = rng.choice([1, 2, 5])
+                    rec0 = lasio.rand_points(rng, h, k, pattern="small")
+                    sc = np.array(h.scales) * rng.choice([1.0, 1.0, 10.0, 0.5])
+                    of = np.array(h.offsets) + rng.choice([0.0, 0.0, 1.0, -2.5])
+                    rec = laspy.ScaleAwarePointRecord(rec0.array, rec0.point_format, sc, of)
+                    kind = "scaled" if (np.any(sc != h.scales) or np.any(of != h.offsets)) else "same"
+                else:
+                    rec = lasio.foreign_points(rng, h, rng.choice([0, 1, 2]))
+                    kind = "foreign"
+                before_rec = (lasio.rec_bytes(rec), tuple(map(float, getattr(rec, "scales", []))), tuple(map(float, getattr(rec, "offsets", []))))
+                before_file = bio.getvalue()
+                try:
+                    if use_with and kind == "foreign" and len(rec):
+                        # the exception leaves a with-block: the appender must still finalise the file with what was accepted
+                        try:
+                            with ap:
+                                ap.append_points(rec)
+                            o = "ok"
+                        except Exception as ex:
+                            o = "err:" + common.exc_kind(ex)
+                        after_rec = (lasio.rec_bytes(rec), tuple(map(float, getattr(rec, "scales", []))), tuple(map(float, getattr(rec, "offsets", []))))
+                        outs_all.append((kind, len(rec), o, before_rec == after_rec, True))
+                        sdesc.append(f"{kind}{len(rec)}!with-exit")
+                        toks.append("F" + common.hexb(bytes(len(rec) * h.point_format.size)))
+                        closed_by_with = True
+                        break
+                    ap.append_points(rec)
+                    o = "ok"
+                except Exception as ex:
+                    o = "err:" + common.exc_kind(ex)
+                after_rec = (lasio.rec_bytes(rec), tuple(map(float, getattr(rec, "scales", []))), tuple(map(float, getattr(rec, "offsets", []))))
+                outs_all.append((kind, len(rec), o, before_rec == after_rec, before_file == bio.getvalue() if not need_path else True))
+                sdesc.append(f"{kind}{len(rec)}")
+                if kind == "foreign":
+                    toks.append("F" + common.hexb(bytes(len(rec) * h.point_format.size)))
+                elif kind == "scaled":
+                    model_ok = False
+                    if o == "ok":
+                        chunks_all.append(rec)
+                else:
+                    toks.append("T" + common.hexb(lasio.rec_bytes(rec)))
+                    if o == "ok":
+                        chunks_all.append(rec)
+            try:
+                if not closed_by_with:
+                    ap.close()
+            except Exception as ex:
+                return {"desc": desc, "final": None, "error": "close: " + repr(ex), "orig": raw0, "left": bio.getvalue()}
+            desc["sessions"].append(sdesc)
+            model_cmds.append((cur, toks))
+            cur = bio.getvalue()
+        finally:
+            if need_path:
+                bio.drop()
+    return {"desc": desc, "orig": raw0, "header": h, "A": A, "evl": evl, "chunks": chunks_all, "final": cur, "outs": outs_all, "enc": enc,
             "model_cmds": model_cmds if model_ok else None}
 
 
 def sessions_for(ctx):
     global _SESS
     if _SESS is None:
-        _SESS = [gen(ctx) for _ in range(ctx.n(260, 3000))]
+        _SESS = []
+        for _ in range(ctx.n(450, 4000)):
+            try:
+                _SESS.append(gen(ctx))
+            except Exception as ex:     # the session generator itself met an exception of the implementation: a failing input
+                import traceback
+                _SESS.append({"desc": {"generator": "append session"}, "final": None, "error": f"{type(ex).__name__}: {ex} | " + traceback.format_exc()[-500:]})
     return _SESS
 
 
 def correspond(ctx):
-    ctx.extra["rule"] = ("random originals (every version/format, 0/1/3/12 points, +-VLRs, +-EVLRs, 30% with extra dims) x 1..3 successive append "
-                         "sessions x 0..4 chunks each: same-format records (0/1/2/7 points), scale-aware records with equal or different "
-                         "scales/offsets, foreign formats (other id, or same id and other extra dims). Model compared on sessions without "
-                         "differently scaled records. non-trivial = at least one non-empty accepted chunk; distinct by description + bytes")
+    ctx.extra["rule"] = ("random originals (every version/format, 0/1/3/12 points, +-VLRs, +-EVLRs, 30% with extra dims, 30% with non-ASCII header strings / VLR "
+                         "descriptions, half of them with return numbers sweeping the whole range of the format) x 1..3 successive append sessions x 0..4 chunks "
+                         "each: same-format records (0/1/2/7 points), scale-aware records with equal or different scales/offsets, foreign formats (other id, "
+                         "or same id and other extra dims); the appender obtained through the class, laspy.open on a stream or on a path, with encoding_errors "
+                         "/ laz_backend None or () / closefd. Model compared on sessions without differently scaled records. Search adds: every (version, "
+                         "format) pair with every return number; ensembles of appenders alive together; strict appends on non-ASCII originals; non-ASCII "
+                         "EVLR descriptions; one-off torn writes. non-trivial = at least one non-empty accepted chunk; distinct by description + bytes")
     ss = sessions_for(ctx)
     dis = []
     cmds, idx = [], []
@@ -129,6 +211,7 @@ def correspond(ctx):
                  sample={"session": s["desc"], "outcomes": [o[2] for o in s.get("outs", [])]})
         for o in s.get("outs", []):
             ctx.count(f"chunk:{o[0]}:{'empty' if o[1] == 0 else 'nonempty'}:{o[2]}")
+        ctx.count("open:" + s["desc"]["open"][0] + ":" + ",".join(sorted(s["desc"]["open"][1])))
         if s.get("model_cmds"):
             # chained sessions: each model session starts from the implementation's previous result (checked equal below)
             for cur, toks in s["model_cmds"]:
@@ -153,6 +236,40 @@ def correspond(ctx):
     return dis
 
 
+def preserved_problems(orig, final):
+    """VLR area byte-identical, EVLRs the same records in the same order right after the points, header strings untouched"""
+    probs = []
+    try:
+        d0, d1 = lasio.parse_raw(orig), lasio.parse_raw(final)
+    except ValueError as ex:
+        return [f"header: {ex}"]
+    if lasio.raw_vlr_block(orig) != lasio.raw_vlr_block(final) or d0["offset"] != d1["offset"]:
+        probs.append("VLRs: the bytes between the header and the first point changed")
+    if orig[:107] != final[:107]:
+        probs.append("header: the fields before the point count (identification, strings, sizes) changed")
+    try:
+        e0 = lasio.raw_walk_vlrs(orig, d0["evlr_start"], d0["nevlrs"], True)[0] if d0["nevlrs"] else []
+    except ValueError:
+        return probs
+    try:
+        e1 = lasio.raw_walk_vlrs(final, d1["evlr_start"], d1["nevlrs"], True)[0] if d1["nevlrs"] else []
+    except ValueError as ex:
+        e1 = None
+    if e1 != e0:
+        probs.append(f"EVLRs: the original holds {len(e0)}, the appended file {'unreadable ones' if e1 is None else len(e1)}" + ("" if e1 is None or len(e1) != len(e0) else " with other contents"))
+    return probs
+
+
+def _guarded(add, name, fn):
+    """runs one section of the search; if the section itself cannot be run on this tree (an exception escaping from laspy where the
+    unchanged tree raises none), that is reported as a failing input instead of losing the findings of the other sections"""
+    try:
+        fn()
+    except Exception as ex:
+        import traceback
+        add(f"search section '{name}' could not be run on this tree", {"section": name}, f"{type(ex).__name__}: {ex} | " + traceback.format_exc()[-700:])
+
+
 def search(ctx, seeds):
     import laspy
     failing, seen = [], set()
@@ -161,53 +278,281 @@ def search(ctx, seeds):
         if kind not in seen:
             seen.add(kind)
             failing.append({"kind": kind, "input": inp, "observed": why})
-    for s in sessions_for(ctx):
-        d = s["desc"]
-        if s.get("final") is None:
-            add("append session failed", d, s.get("error", ""))
-            continue
-        for kind, n, o, rec_same, file_same in s["outs"]:
-            if kind == "foreign" and n > 0 and (o != "err:ELaspy" or not file_same):
-                add("foreign format not refused", d, f"append_points of a foreign format ({n} points): {o}, file unchanged={file_same}")
-            if kind == "scaled" and o == "err:EOverflow" and file_same:
-                continue   # not representable in the file's scaling: refused, nothing written
-            if kind != "foreign" and o != "ok":
-                add(f"append of {kind} chunk failed", d, f"{n} points: {o}")
-            if not rec_same:
-                add("caller's record modified by append", d, f"{kind} chunk of {n} points changed (bytes/scales/offsets)")
-        # reference: one writer session with the original header writing A then every accepted chunk
-        h = s["header"]
-        bio = io.BytesIO()
-        try:
-            with laspy.LasWriter(bio, h, closefd=False) as w:
-                if len(s["A"]):
-                    w.write_points(s["A"])
-                for rec in s["chunks"]:
-                    w.write_points(rec)
-                if s["evl"]:
-                    w.write_evlrs(s["evl"])
-            ref = bio.getvalue()
-        except Exception as ex:
-            continue
-        if ref != s["final"]:
-            diff = next((i for i, (a, b) in enumerate(zip(ref, s["final"])) if a != b), min(len(ref), len(s["final"])))
-            where = "header" if diff < 375 else "points/EVLRs"
-            add(f"appended file differs from one-shot ({where})", d, f"first differing byte {diff}; lengths {len(s['final'])} vs {len(ref)}")
-    for h, raw, accepted, raised, budget, n0, sizes, nev in failing_append_cases(ctx):
-        ctx.case(("failing-append", raw), nontrivial=True)
-        ctx.count("failing-append:" + ("raised" if raised else "completed"))
-        d = {"version": str(h.version), "format": h.point_format.id, "chunks": sizes, "evlrs": nev, "destination_fails_beyond_byte": budget, "original_size": n0}
-        try:
-            las = laspy.read(io.BytesIO(raw))
-        except Exception as ex:
-            if raised and nev:
-                continue     # the relocated EVLRs could not be written: the file is refused by the reader, which the property allows
-            add("file unreadable after a failed append", d, f"{type(ex).__name__}: {ex}")
-            continue
-        got = lasio.rec_bytes(las.points)
-        if accepted[:len(got)] != got:
-            add("failed append: file holds points that were not written", d, f"{len(las.points)} records read; not a prefix of old ++ accepted points")
+    def sec_append_sessions():
+        for s in sessions_for(ctx):
+            d = s["desc"]
+            if s.get("final") is None:
+                add("append session failed", d, s.get("error", ""))
+                continue
+            for kind, n, o, rec_same, file_same in s["outs"]:
+                if kind == "foreign" and n > 0 and (o != "err:ELaspy" or not file_same):
+                    add("foreign format not refused", d, f"append_points of a foreign format ({n} points): {o}, file unchanged={file_same}")
+                if kind == "scaled" and o == "err:EOverflow" and file_same:
+                    continue   # not representable in the file's scaling: refused, nothing written
+                if kind != "foreign" and o != "ok":
+                    add(f"append of {kind} chunk failed", d, f"{n} points: {o}")
+                if not rec_same:
+                    add("caller's record modified by append", d, f"{kind} chunk of {n} points changed (bytes/scales/offsets)")
+            # exact statistics, recomputed from the bytes
+            probs = lasio.raw_stats_problems(s["final"])
+            if probs:
+                add("appended file: header statistics not exact (" + probs[0].split(" ")[0] + ")", d, "; ".join(probs[:3]))
+            probs = preserved_problems(s["orig"], s["final"])
+            if probs:
+                add("appended file: " + probs[0].split(":")[0] + " not preserved", d, "; ".join(probs[:3]))
+            # reference: one writer session with the original header writing A then every accepted chunk
+            h = s["header"]
+            try:
+                ref = write_ref(h, [s["A"]] + s["chunks"], s["evl"], s["enc"])
+            except Exception as ex:
+                continue
+            if ref != s["final"]:
+                diff = next((i for i, (a, b) in enumerate(zip(ref, s["final"])) if a != b), min(len(ref), len(s["final"])))
+                where = "header" if diff < 375 else "points/EVLRs"
+                add(f"appended file differs from one-shot ({where})", d, f"first differing byte {diff}; lengths {len(s['final'])} vs {len(ref)}")
+    _guarded(add, 'append sessions', sec_append_sessions)
+    def sec_version_format_sweep():
+        for kind, d, why in pair_sweep(ctx):
+            add(kind, d, why)
+    _guarded(add, 'version/format sweep', sec_version_format_sweep)
+    def sec_appenders_alive_together():
+        for kind, d, why in ensembles(ctx):
+            add(kind, d, why)
+    _guarded(add, 'appenders alive together', sec_appenders_alive_together)
+    def sec_non_ASCII_originals():
+        for kind, d, why in refused_sessions(ctx):
+            add(kind, d, why)
+    _guarded(add, 'non-ASCII originals', sec_non_ASCII_originals)
+    def sec_torn_writes():
+        for kind, d, why in torn_appends(ctx):
+            add(kind, d, why)
+    _guarded(add, 'torn writes', sec_torn_writes)
+    def sec_failing_destination():
+        for h, raw, accepted, raised, budget, n0, sizes, nev in failing_append_cases(ctx):
+            ctx.case(("failing-append", raw), nontrivial=True)
+            ctx.count("failing-append:" + ("raised" if raised else "completed"))
+            d = {"version": str(h.version), "format": h.point_format.id, "chunks": sizes, "evlrs": nev, "destination_fails_beyond_byte": budget, "original_size": n0}
+            try:
+                las = laspy.read(io.BytesIO(raw))
+            except Exception as ex:
+                if raised and nev:
+                    continue     # the relocated EVLRs could not be written: the file is refused by the reader, which the property allows
+                add("file unreadable after a failed append", d, f"{type(ex).__name__}: {ex}")
+                continue
+            got = lasio.rec_bytes(las.points)
+            if accepted[:len(got)] != got:
+                add("failed append: file holds points that were not written", d, f"{len(las.points)} records read; not a prefix of old ++ accepted points")
+    _guarded(add, 'failing destination', sec_failing_destination)
     return failing[:8]
+
+
+def pair_sweep(ctx):
+    """(b) every (version, format) pair the compatibility table allows, original and appended records whose return numbers take every value
+    the format can store (0..7 / 0..15): the appended file's statistics must be exact and the file must be the one-shot file"""
+    import laspy
+    from laspy.vlrs.vlrlist import VLRList
+    rng = ctx.rng
+    out = []
+    for rep in range(ctx.n(2, 8)):
+        for v, f in lasio.ALL_PAIRS:
+            h = lasio.rand_header(rng, version=v, fmt=f)
+            r = lasio.return_range(f)
+            A = lasio.sweep_points(rng, h, rng.choice([0, 3, r]))
+            evl = VLRList([lasio.rand_vlr(rng, 40)]) if (v == "1.4" and rng.random() < 0.5) else None
+            raw0 = lasio.write_las(h, A, evl)
+            bio = io.BytesIO(raw0)
+            chunks = [lasio.sweep_points(rng, h, n, start=rng.randrange(r)) for n in (r, rng.choice([0, 1, 5]), 2 * r + 1)]
+            d = dict(lasio.describe_header(h), orig_returns=lasio.chunk_histogram(A, f), appended_returns=[lasio.chunk_histogram(c, f) for c in chunks], evlrs=len(evl or []))
+            try:
+                with laspy.open(bio, mode="a", closefd=False) as ap:
+                    for c in chunks:
+                        ap.append_points(c)
+            except Exception as ex:
+                out.append(("append session failed (version/format sweep)", d, f"{type(ex).__name__}: {ex}"))
+                continue
+            fin = bio.getvalue()
+            ctx.case(("pair", fin), nontrivial=True)
+            ctx.count(f"pair:{v}:{f}")
+            probs = lasio.raw_stats_problems(fin)
+            if probs:
+                out.append(("appended file: header statistics not exact (" + probs[0].split(" ")[0] + ")", d, "; ".join(probs[:3])))
+            if lasio.raw_records(fin) != lasio.rec_bytes(A) + b"".join(lasio.rec_bytes(c) for c in chunks):
+                out.append(("appended file: point sequence is not original ++ appended", d, f"{len(lasio.raw_records(fin))} bytes of records"))
+            ref = lasio.write_las(h, laspy.PackedPointRecord.from_buffer(bytearray(lasio.raw_records(fin)), h.point_format), evl)
+            if ref != fin:
+                out.append(("appended file differs from one-shot (version/format sweep)", d, f"lengths {len(fin)} vs {len(ref)}"))
+    return out
+
+
+def ensembles(ctx):
+    """(a) several appenders (and writers) alive at the same time on files built from ONE header object, interleaved operations, the same record
+    object handed to several of them: every file must be the file of its own session run alone, and the one-shot file of its own points"""
+    out = []
+    rng = ctx.rng
+    for _ in range(ctx.n(140, 1200)):
+        e = lasio.ens_gen(rng, ctx.thorough(), kinds=rng.choice([["appender"], ["appender"], ["appender", "writer", "open-w"], ["appender", "lasdata"]]))
+        d = lasio.ens_describe(e)
+        a = lasio.ens_run(e)
+        b = lasio.ens_run(e, isolated=True)
+        if a["error"] or b["error"]:
+            out.append(("ensemble of appenders could not be run", d, str(a["error"] or b["error"])))
+            continue
+        nld = sum(1 for p in e["parts"] if p["kind"] == "lasdata")
+        for j, p in enumerate(e["parts"]):
+            if p["kind"] != "appender":
+                continue
+            fj = a["files"][j]
+            ctx.case(("ensemble", fj), nontrivial=len(e["parts"]) > 1)
+            ctx.count("ensemble:appender-with:" + "+".join(sorted(set(q["kind"] for q in e["parts"]))))
+            dj = dict(d, participant=j)
+            probs = lasio.raw_stats_problems(fj)
+            if probs:
+                out.append(("appenders alive together: header statistics not exact (" + probs[0].split(" ")[0] + ")", dj, "; ".join(probs[:3])))
+            if lasio.raw_records(fj) != a["accepted"][j]:
+                out.append(("appenders alive together: a file does not hold original ++ its own appended points", dj, f"{len(lasio.raw_records(fj))} bytes of records, {len(a['accepted'][j])} expected"))
+            if fj != b["files"][j] or a["outs"][j] != b["outs"][j]:
+                out.append(("appenders alive together: a file differs from the same session run alone", dj, f"outcomes {a['outs'][j]} vs {b['outs'][j]}; lengths {len(fj)} vs {len(b['files'][j])}"))
+        if a["header_touched"]:
+            out.append(("the caller's header object was modified by a writer / appender", d, "fields, VLRs or point format of the header handed to the constructors changed"))
+    return out
+
+
+def patch_evlr_description(raw, rng):
+    """the same file with non-ASCII bytes in the description of its first EVLR (as other software writes them)"""
+    d = lasio.parse_raw(raw)
+    if not d["nevlrs"]:
+        return None
+    p = d["evlr_start"] + 28
+    desc = lasio.nonascii_bytes(rng, rng.choice([3, 12, 32]))
+    return raw[:p] + desc + bytes(32 - len(desc)) + raw[p + 32:]
+
+
+def refused_sessions(ctx):
+    """(c) an append that cannot be completed must not destroy what the file held: originals with non-ASCII header strings / VLR / EVLR
+    descriptions opened with the DEFAULT encoding_errors ('strict': the header cannot be re-written), or with a lenient one (then the session
+    must succeed and give the one-shot file). Whatever is raised, and wherever, the file must afterwards read as the original or as original ++
+    accepted, with its EVLRs."""
+    import laspy
+    from laspy.vlrs.vlrlist import VLRList
+    out = []
+    rng = ctx.rng
+    for it in range(ctx.n(110, 800)):
+        h = lasio.rand_header(rng, version=rng.choice(["1.2", "1.4", "1.4", None]))
+        where = rng.choice(["header", "header", "evlr", "header+evlr"])
+        if "header" in where:
+            touched = lasio.make_nonascii(rng, h)
+        else:
+            touched = []
+        A = lasio.sweep_points(rng, h, rng.choice([0, 2, 6]))
+        evl = VLRList([lasio.rand_vlr(rng, 60) for _ in range(rng.choice([1, 2]))]) if (h.version.minor >= 4 and (rng.random() < 0.7 or "evlr" in where)) else None
+        try:
+            raw0 = write_ref(h, [A], evl, {"encoding_errors": "ignore"})
+        except Exception as ex:
+            out.append(("original with non-ASCII strings could not be written with encoding_errors='ignore'", lasio.describe_header(h), f"{type(ex).__name__}: {ex}"))
+            continue
+        if "evlr" in where:
+            raw0 = patch_evlr_description(raw0, rng) if evl else None
+            if raw0 is None:
+                continue
+            touched = touched + ["evlr description"]
+        ee = rng.choice(["strict", "default", "ignore", "replace"])
+        kw = {} if ee == "default" else {"encoding_errors": ee}
+        via = rng.choice(["class", "open"])
+        chunks = [lasio.sweep_points(rng, h, rng.choice([1, 3, 8])) for _ in range(rng.choice([1, 2]))]
+        d = dict(lasio.describe_header(h), non_ascii=touched, orig_points=len(A), evlrs=len(evl or []), open=[via, kw], chunks=[len(c) for c in chunks])
+        bio = io.BytesIO(raw0)
+        raised, accepted = None, lasio.rec_bytes(A)
+        try:
+            with open_appender(bio, via, kw) as ap:
+                for c in chunks:
+                    ap.append_points(c)
+                    accepted += lasio.rec_bytes(c)
+        except Exception as ex:
+            raised = f"{type(ex).__name__}: {ex}"
+        fin = bio.getvalue()
+        ctx.case(("refused", fin), nontrivial=True)
+        ctx.count(f"nonascii-append:{where}:{ee}:{'raised' if raised else 'ok'}")
+        lenient = ee in ("ignore", "replace")
+        site = "EVLR description" if "evlr" in where else "header strings / VLR descriptions"
+        if raised is None:
+            # a completed session: the usual equivalence
+            probs = lasio.raw_stats_problems(fin) + preserved_problems(raw0, fin)
+            if lasio.raw_records(fin) != accepted:
+                probs.append("records: the file does not hold original ++ appended points")
+            if probs:
+                out.append(("append on a non-ASCII original: " + probs[0].split(":")[0].split(" ")[0] + " wrong", d, "; ".join(probs[:3])))
+            continue
+        if lenient:
+            out.append((f"non-ASCII original ({site}), lenient encoding_errors: the append session raises", d, raised))
+        if fin == raw0:
+            continue         # refused without touching the file
+        # the session raised after writing: nothing of the original may be lost
+        try:
+            las = laspy.read(io.BytesIO(fin))
+            got = lasio.rec_bytes(las.points)
+            ev = None if las.evlrs is None else [lasio.vlr_tuple(v) for v in las.evlrs]
+            err = None
+        except Exception as ex:
+            err = f"{type(ex).__name__}: {ex}"
+        las0 = laspy.read(io.BytesIO(raw0))
+        ev0 = None if las0.evlrs is None else [lasio.vlr_tuple(v) for v in las0.evlrs]
+        why = None
+        if err:
+            why = f"the file is unreadable afterwards ({err})"
+        elif got not in (lasio.rec_bytes(A), accepted):
+            why = f"the file holds neither the original nor original ++ accepted points ({len(las.points)} records read)"
+        elif ev != ev0:
+            why = f"the EVLRs of the original are lost (it held {len(ev0 or [])}, afterwards {[(u, r, len(p)) for u, r, _, p in (ev or [])]})"
+        if why:
+            out.append((f"non-ASCII original ({site}), {'lenient' if lenient else 'strict'} encoding_errors: the append session raises after damaging the file", d, f"session: {raised}; {why}"))
+    return out
+
+
+def torn_appends(ctx):
+    """(d) one low-level write of an append session fails with OSError before storing any byte, then the session goes on: the exception
+    leaves the with-block, or the caller catches it and appends the remaining chunks (or the same chunk again), then closes.
+    The result must be equivalent to original ++ accepted chunks. (Torn writes that stored bytes: C19.)"""
+    from harness.props import c19
+    out = []
+    for plan, policy, fa, run in c19.faults(ctx):
+        if plan["kind"] != "appender":
+            continue
+        d = c19.describe_fault(plan, policy, fa, run)
+        if "error" in run:
+            out.append(("torn write during an append: the session could not be run", d, run["error"]))
+            continue
+        if run["fault"] is None or not str(run["where"]).startswith("write_points") or run["fault"][3] != 0:
+            continue      # faults inside close (EVLRs / header rewrite) and torn writes that stored bytes are C19's
+        ctx.case(("torn-append", run["final"][:4000], len(run["final"])), nontrivial=True)
+        ctx.count(f"torn-append:{policy}")
+        fin = run["final"]
+        tag = "exception leaves the with-block" if policy == "with" else "caller goes on"
+        probs = lasio.raw_stats_problems(fin)
+        try:
+            if lasio.raw_records(fin) != run["accepted"]:
+                probs.insert(0, f"records: the file announces {len(lasio.raw_records(fin))} bytes of records which are not original ++ accepted chunks ({len(run['accepted'])} bytes)")
+        except ValueError as ex:
+            probs.insert(0, f"header: {ex}")
+        probs += [p for p in preserved_problems(run["base"], fin)]
+        if probs:
+            out.append((f"refused write (appender, nothing stored, {tag}): the file is not equivalent to original ++ accepted chunks", d, "; ".join(probs[:3])))
+    return out
+
+
+class FailingStream(io.BytesIO):
+    """accepts `budget` bytes, then raises on write (a full disk / closed pipe)"""
+
+    def __init__(self, budget, once=False):
+        super().__init__()
+        self.budget = budget
+        self.once = once          # a transient fault: only the first offending write fails
+        self.failed = 0
+
+    def write(self, b):
+        if self.tell() + len(b) > self.budget and not (self.once and self.failed):
+            self.failed += 1
+            raise OSError("no space left on device (harness)")
+        return super().write(b)
 
 
 def failing_append_cases(ctx):
@@ -215,7 +560,6 @@ def failing_append_cases(ctx):
     file holding a prefix of (old points ++ accepted new points), with a header that describes exactly what it holds"""
     import laspy
     from laspy.lasappender import LasAppender
-    from harness.props.c01 import FailingStream
     out = []
     rng = ctx.rng
     for _ in range(ctx.n(40, 300)):
